@@ -20,7 +20,9 @@ def main():
         rc = mod.replay(ctx, verdict)
         sys.exit(rc)
     try:
-        pr = vlib.standard_proof_part(ctx, verdict, mod.PROP_FILES, getattr(mod, 'EXTRA_OBLIGATION_FILES', ()))
+        pid_extract = 'Extract/' + a.pid
+        extract = getattr(mod, 'EXTRACT_FILES', [pid_extract] if os.path.exists('%s/%s.v' % (vlib.COQ, pid_extract)) else [])
+        pr = vlib.standard_proof_part(ctx, verdict, mod.PROP_FILES, getattr(mod, 'EXTRA_OBLIGATION_FILES', ()), extract)
         corr = mod.correspondence(ctx, verdict, pr)
         new_before = len(verdict.violations)
         problems = [('proof obligation %s' % f, e) for f, e in pr['broken']] + \
